@@ -26,7 +26,7 @@ COMPONENTS = {'real': ['yldprolog.engine Variable/Functor get_value and to_pytho
               'stub': ['consumer holding the open unifications and saved values'],
               'oracle': ['substitution-stack model (ypsim.terms) rendered through the documented to_python mapping']}
 REQUIRED_PROBES = ('fault_recursion_inside_get_value', 'fault_recursion_inside_to_python', 'save_ground_compound', 'save_outer_older_than_inner', 'read_after_pop', 'program_collect_idiom', 'program_findall', 'program_assert',
-                   'pop_close', 'pop_drop', 'pop_resume')
+                   'pop_close', 'pop_drop', 'pop_resume', 'pop_throw')
 
 
 def ground_term(rng, depth):
@@ -90,7 +90,7 @@ def gen(seed, tier):
             ops.append(['SAVE', ['v', rng.randrange(nv)]])
         npop = rng.randrange(0, len(eqs) + 1)
         for _ in range(npop):
-            ops.append(['POP', rng.choice(('close', 'drop', 'resume'))])
+            ops.append(['POP', rng.choice(('close', 'drop', 'resume', 'throw'))])
         if npop and rng.random() < 0.6:
             # bind the variables just released again, to other values, and look at X again: an earlier answer
             # must not show through (outer binding older than the inner ones, inner ones re-bound on backtracking)
@@ -105,7 +105,7 @@ def gen(seed, tier):
         elif k < 0.09:
             ops.append(['FAULT', rng.choice(('get_value', 'to_python')), rng.choice(('list', 'nest'))])
         elif k < 0.3:
-            ops.append(['POP', rng.choice(('close', 'drop', 'resume'))])
+            ops.append(['POP', rng.choice(('close', 'drop', 'resume', 'throw'))])
         elif k < 0.55:
             t = ['v', rng.randrange(nv)] if rng.random() < 0.7 else TM.J(TM.rnd_term(rng, nv, 2, lists=False))
             ops.append(['SAVE', t])
